@@ -6,6 +6,7 @@ import (
 	"fmt"
 	"sort"
 	"strings"
+	"sync"
 
 	"go.opentelemetry.io/otel/metric"
 	"go.opentelemetry.io/otel/metric/noop"
@@ -20,6 +21,7 @@ import (
 // recMeterProvider records the deltas published on arrow_memory_inuse.
 type recMeterProvider struct {
 	noop.MeterProvider
+	mu    sync.Mutex // instruments are safe for concurrent use, as the API requires (C16 shares one provider between consumers)
 	inuse int64
 	max   int64
 }
@@ -46,6 +48,8 @@ func (m *recMeter) Int64UpDownCounter(name string, _ ...metric.Int64UpDownCounte
 }
 
 func (c *recUpDown) Add(_ context.Context, incr int64, _ ...metric.AddOption) {
+	c.p.mu.Lock()
+	defer c.p.mu.Unlock()
 	c.p.inuse += incr
 	if c.p.inuse > c.p.max {
 		c.p.max = c.p.inuse
